@@ -787,6 +787,8 @@ func runC10(e *Engine, r *Report, tier string) {
 			}
 		}
 	}
+	r.Rule("R9", "entries of the governance switch lists are not normalised with a Trim* cutset mistaken for a prefix (a disabled `address/selector` entry must still equal what the dispatcher compares it with)", 1, "")
+	e.ruleTrimCutset(r, "R9", "/x/gov", "/x/evm", "/precompile", "/contract")
 	r.Rule("R6", "the precompile account pays out exactly msg.value of the current call: the pay-out routine's amount is contract.Value() or guarded equal to it", 2, "call sites of routines that move coins out of the precompile's own account")
 	e.c10PayoutEqualsValue(r)
 	r.Rule("R5", "a queued withdrawal keeps its owner: a fee increase re-adds the record it read, unchanged in id / sender / destination / token (C05.R5 identity)", 1, "C05 obligations")
